@@ -70,41 +70,73 @@ def _flat(jax, samples):
     return np.concatenate([np.asarray(l, dtype=np.float64).ravel() for l in leaves])
 
 
+def _record_keys(jax, jnp, jft, lh, seed, modes):
+    """run OptimizeVI with the given per-iteration sample modes and RECORD the key every `draw_samples` call receives;
+    returns (recorded keys, keys predicted by the model: sk_i = split(key_i)[1], key_{i+1} = split(key_i)[0],
+    final key ok, samples)"""
+    import numpy as np
+    rec = []
+    orig = jft.OptimizeVI.draw_samples
+
+    def spy(self, samples, *, key, **kw):
+        rec.append(np.asarray(jax.random.key_data(key)).tolist())
+        return orig(self, samples, key=key, **kw)
+    jft.OptimizeVI.draw_samples = spy
+    try:
+        key0, samples, state = _jax_run(jax, jnp, jft, lh, seed, n_it=len(modes), sample_mode=lambda i: modes[i])
+    finally:
+        jft.OptimizeVI.draw_samples = orig
+    k, want = key0, []
+    for _ in modes:
+        k, sk = jax.random.split(k, 2)
+        want.append(np.asarray(jax.random.key_data(sk)).tolist())
+    final_ok = bool(np.array_equal(jax.random.key_data(state.key), jax.random.key_data(k)))
+    return rec, want, final_ok, samples
+
+
+def jaxkeys(seed):
+    """tie of the key-schedule model (Model/Rng.lean keyAt/runKeys, theorem vi_key_schedule) to OptimizeVI.update"""
+    jax, jnp, jft, lh = _jax_setup()
+    out = {}
+    ok = True
+    for name, modes in (("resample-only", ["linear_resample", "nonlinear_resample", "linear_resample"]),
+                        ("with-reuse", ["linear_resample", "nonlinear_update", "linear_sample", "nonlinear_resample"])):
+        rec, want, final_ok, _ = _record_keys(jax, jnp, jft, lh, seed, modes)
+        out[name] = dict(recorded=rec, predicted=want, final_ok=final_ok)
+        ok = ok and rec == want and final_ok
+    return dict(key_schedule_ok=ok, runs=out)
+
+
+MAIN_MODES = ["linear_resample", "nonlinear_update", "nonlinear_resample"]
+
+
 def jaxdigest(seed):
     jax, jnp, jft, lh = _jax_setup()
-    key, samples, state = _jax_run(jax, jnp, jft, lh, seed)
+    rec, want, final_ok, samples = _record_keys(jax, jnp, jft, lh, seed, MAIN_MODES)
     return dict(digest=hashlib.sha1(json.dumps(_hex(_flat(jax, samples))).encode()).hexdigest())
 
 
 def jaxrun(seed, maps=False):
+    """main run: a 3-iteration schedule that contains an iteration WITHOUT fresh randomness, with the sampling keys
+    recorded; `maps`: additionally the jitted maps against each other (quick tier)"""
     import numpy as np
     jax, jnp, jft, lh = _jax_setup()
-    key, samples, state = _jax_run(jax, jnp, jft, lh, seed)
+    rec, want, final_ok, samples = _record_keys(jax, jnp, jft, lh, seed, MAIN_MODES)
     flat = _flat(jax, samples)
     extra = {}
-    if maps:   # quick tier: the default (lmap) and the sequential map against vmap, all jitted, in this same process
-        ref = flat          # the main run uses the defaults: residual_map=lmap, kl_map=vmap, jit=True
+    if maps:
+        _, s0, _ = _jax_run(jax, jnp, jft, lh, seed, residual_map="lmap", kl_map="vmap", jit=True)
+        ref = _flat(jax, s0)
         devs = {"lmap/vmap/jit=True": 0.0}
-        for rmap, kmap in (("vmap", "vmap"), ("smap", "smap")):
+        for rmap, kmap in (("smap", "smap"),):   # quick: default lmap/vmap against the sequential map
             try:
                 _, s1, _ = _jax_run(jax, jnp, jft, lh, seed, residual_map=rmap, kl_map=kmap, jit=True)
                 devs[f"{rmap}/{kmap}/jit=True"] = float(np.max(np.abs(_flat(jax, s1) - ref)) / (np.max(np.abs(ref)) + 1e-300))
             except Exception as e:  # noqa: BLE001
                 devs[f"{rmap}/{kmap}/jit=True"] = "error:" + type(e).__name__ + ":" + str(e)[:120]
         extra = dict(deviations=devs, worst=max([v for v in devs.values() if not isinstance(v, str)] + [0.0]))
-    # key schedule: every update does `key, sk = split(key, 2)` exactly once, whatever the sample mode
-    k = key
-    for _ in range(2):
-        k, _sk = jax.random.split(k, 2)
-    if maps:
-        state2 = state
-    else:
-        key2, samples2, state2 = _jax_run(jax, jnp, jft, lh, seed,
-                                          sample_mode=lambda i: "linear_resample" if i == 0 else "nonlinear_resample")
     return dict(extra, digest=hashlib.sha1(json.dumps(_hex(flat)).encode()).hexdigest(),
-                final_key=np.asarray(jax.random.key_data(state.key)).tolist(),
-                key_schedule_ok=bool(np.array_equal(jax.random.key_data(state.key), jax.random.key_data(k))
-                                     and np.array_equal(jax.random.key_data(state2.key), jax.random.key_data(k))))
+                recorded_keys=rec, predicted_keys=want, key_schedule_ok=bool(rec == want and final_ok))
 
 
 def jaxmaps(seed, quick=False):
@@ -136,4 +168,4 @@ def jaxmaps(seed, quick=False):
 if __name__ == "__main__":
     repo, mode, seed = sys.argv[1], sys.argv[2], int(sys.argv[3])
     sys.path.insert(0, repo)
-    print("RESULT " + json.dumps({"classic": classic, "jax": jaxrun, "jaxq": lambda s: jaxrun(s, True), "jaxd": jaxdigest, "jaxmaps": jaxmaps, "jaxmaps_quick": lambda s: jaxmaps(s, True)}[mode](seed)))
+    print("RESULT " + json.dumps({"classic": classic, "jax": jaxrun, "jaxq": lambda s: jaxrun(s, True), "jaxd": jaxdigest, "jaxkeys": jaxkeys, "jaxmaps": jaxmaps, "jaxmaps_quick": lambda s: jaxmaps(s, True)}[mode](seed)))
